@@ -13,6 +13,8 @@ import ast
 from sa.core import rule, AnalysisError
 from sa.pyindex import get_module, dotted, src, calls_in, walk_no_nested, all_py_files
 from sa import flow
+from rules import _util_c13c02c10 as U
+from rules import _c10_smallscope as SS
 
 EXPLANATION = (
     "Static necessary conditions for MRO agreement, evaluated on the AST of "
@@ -64,7 +66,41 @@ EXPLANATION = (
     "pytd visitors that rewrite Class.bases between the parser and PyTDClass "
     "(load_pytd resolution, pep484.ConvertTypingToNative zips old and new "
     "bases one to one) are not followed; the rewrite engine's class creation "
-    "is covered by R10.8 only.")
+    "is covered by R10.8 only.  Robustness to behaviour-preserving "
+    "refactorings: (i) wherever a rule anchors on one function "
+    "(Class.compute_mro, make_class, every function containing an MROMerge "
+    "call) the module-level helpers / own-class methods it calls as "
+    "statements (`helper(..)`, `x = helper(..)`, `a, b = helper(..)` with the "
+    "helper ending in its only return) are inlined in place first - "
+    "parameters bound to the arguments, helper locals renamed, guard-clause "
+    "returns rewritten to if/else - so the duplicate test, the rows "
+    "expression, the row map and the class construction are found when they "
+    "live in a helper, under the caller's control flow (the try block around "
+    "the call is the try block around the construction); helpers that "
+    "contain an MROMerge call are merge sites of their own.  (ii) R10.1 reads "
+    "`[a, *rows, b]` as `[a] + rows + [b]`, a rows operand bound to a "
+    "comprehension like the accumulator loop, a per-row map whose row is "
+    "built by a comprehension over the outer loop variable like the "
+    "inner-loop form, and accepts as linearisation of a base the result of a "
+    "module-level helper every return of which is one (a recursive call of a "
+    "merging function on that parameter, or a look-up in the memo table of "
+    "linearisations handed down as an argument).  (iii) R10.3 enumerates the "
+    "paths through the loop body after the per-base lookup: a path that goes "
+    "on to the next base (continue / end of body) must propositionally imply "
+    "that the lookup returned None, whatever the spelling (early continue, "
+    "positive guard around the hit-processing + break, De Morgan forms).  "
+    "(iv) R10.2 (MergeSequences:reject), R10.6 and R10.9 first try their "
+    "structural recognisers; when the SHAPE of MergeSequences is outside them "
+    "(e.g. the candidate search extracted into a picker helper, `while "
+    "any(seqs)`), their constructs are decided jointly by small-scope "
+    "evaluation (rules/_c10_smallscope.py): MergeSequences and the "
+    "module-level helpers it calls are evaluated from their AST "
+    "(rules/_minieval.py; nothing is imported or run) on every list of at "
+    "most 3 duplicate-free rows of at most 3 of 4 classes, up to renaming "
+    "(2989 inputs), and must return exactly the C3 merge of CPython's pmerge "
+    "or fail with ValueError exactly when C3 has no answer; a difference is a "
+    "violation with the counterexample, anything the evaluator does not model "
+    "an analysis error.")
 ASSUMPTIONS = [
     "expressions naming the direct bases (`cls.bases`, `_GetClass(t, "
     "lookup_ast).bases`) are pure: two textually equal occurrences whose free "
@@ -82,6 +118,17 @@ ASSUMPTIONS = [
     "and argument-less method calls (self.bases()) are the sources of a row; "
     "the five anchored sites are connected by those attributes, which is not "
     "itself checked",
+    "inlining a helper is exact for the shapes accepted (see "
+    "rules/_util_c13c02c10.py): argument expressions are evaluated once, "
+    "before the body; a helper that is a method is resolved along the "
+    "module-local MRO of the class that owns the anchored function and is "
+    "assumed not to be overridden in subclasses outside the module",
+    "small-scope decision of MergeSequences (only used when its shape is not "
+    "recognised): a defect of the C3 step that needs more than 3 rows, rows "
+    "longer than 3 or more than 4 classes to show is not seen; classes with "
+    "pytype's SINGLETON marker and None elements are outside the scope; "
+    "R10.3: a cfg.Variable is always truthy, so `if var` / `if not var` on "
+    "the lookup result count as `is not None` / `is None`",
 ]
 # rules/c10_quantifiers.py (R10.20, R10.21)
 EXPLANATION += (
@@ -191,7 +238,31 @@ class _Defs:
 
 
 def _defs(ctx, mod, fn):
-  return ctx.memo(("c10defs", mod.rel, fn.lineno, fn.name), lambda: _Defs(fn))
+  return ctx.memo(("c10defs", mod.rel, fn.lineno, fn.name, id(fn)),
+                  lambda: (_Defs(fn), fn))[0]
+
+
+def _owner_class(mod, fn):
+  par = mod.parent.get(fn)
+  return par.name if isinstance(par, ast.ClassDef) else None
+
+
+def _helper_has_merge(mod, name):
+  cands = [mod.functions.get(name)] + [mod.methods(c).get(name) for c in mod.classes]
+  return any(f is not None and _contains_merge(f) for f in cands)
+
+
+def _inlined(ctx, mod, fn):
+  """(module view, function): `fn` with the statement-level calls to the
+  module-level helpers / own-class methods it was split into inlined in place
+  (rules/_util_c13c02c10.inline_calls).  Helpers that contain an MROMerge call
+  are merge sites of their own and stay calls."""
+  def make():
+    inl = U.inline_calls(mod, fn, receiver=_owner_class(mod, fn),
+                         only=lambda n: not _helper_has_merge(mod, n))
+    return inl.mod, inl.fn, fn
+  return ctx.memo(("c10inl", mod.rel, fn.lineno, fn.name, id(fn)), make)[:2]
+
 
 
 def _single_assign(defs, name, stmt, what):
@@ -318,8 +389,45 @@ def _contains_merge(node):
              for c in ast.walk(node))
 
 
-def _is_lin(mod, fn, defs, expr, var, stmt, what):
+def _memo_tables(fn):
+  """Parameters of fn it uses as memo tables of linearisations: fn stores
+  `memo[<cls>] = ..MROMerge(..)..`."""
+  a = fn.args
+  params = {x.arg for x in a.posonlyargs + a.args + a.kwonlyargs}
+  out = set()
+  for n in walk_no_nested(fn):
+    if isinstance(n, ast.Assign) and _contains_merge(n.value):
+      for t in n.targets:
+        if isinstance(t, ast.Subscript) and isinstance(t.value, ast.Name) and \
+            t.value.id in params:
+          out.add(t.value.id)
+  return out
+
+
+def _returns_lin_of(mod, callee, pname, memos, what, depth):
+  """Does every `return` of module-level `callee` give the linearisation of its
+  parameter `pname`?  (`memos`: parameters of callee that receive the
+  caller's memo table of linearisations.)"""
+  if any(isinstance(n, (ast.Yield, ast.YieldFrom)) for n in walk_no_nested(callee)):
+    return False
+  rets = [r for r in walk_no_nested(callee) if isinstance(r, ast.Return)]
+  if not rets or any(r.value is None for r in rets):
+    return False
+  cdefs = _Defs(callee)
+  for r in rets:
+    if cdefs.flow.before.get(r) is None:
+      continue
+    if cdefs.at(pname, r) != frozenset(["param"]):
+      return False
+    if not _is_lin(mod, callee, cdefs, r.value, pname, r, what, memos, depth + 1):
+      return False
+  return True
+
+
+def _is_lin(mod, fn, defs, expr, var, stmt, what, memos=None, depth=0):
   """Is `expr` (evaluated at stmt) the linearisation of loop variable `var`?"""
+  if memos is None:
+    memos = _memo_tables(fn)
   expr = _strip_seq(mod, expr)
   if isinstance(expr, ast.Attribute) and expr.attr == "mro" and \
       isinstance(expr.value, ast.Name) and expr.value.id == var:
@@ -329,27 +437,37 @@ def _is_lin(mod, fn, defs, expr, var, stmt, what):
       isinstance(expr.func.value, ast.Name) and expr.func.value.id == var:
     return True
   if isinstance(expr, ast.Call) and isinstance(expr.func, ast.Name) and \
-      expr.args and isinstance(expr.args[0], ast.Name) and \
-      expr.args[0].id == var:
+      expr.args and not expr.keywords and \
+      not any(isinstance(a, ast.Starred) for a in expr.args):
+    pos = [i for i, a in enumerate(expr.args)
+           if isinstance(a, ast.Name) and a.id == var]
     callee = mod.functions.get(expr.func.id)
-    if callee is not None and _contains_merge(callee):
-      return True
+    if callee is not None and len(pos) == 1:
+      if pos[0] == 0 and _contains_merge(callee):
+        return True
+      cparams = [a.arg for a in callee.args.posonlyargs + callee.args.args]
+      if depth < 3 and len(expr.args) <= len(cparams) and \
+          not callee.args.vararg and not callee.args.kwarg:
+        # a helper every return of which is the linearisation of that
+        # parameter (a recursive call of a merging function, or a look-up in
+        # the memo table handed down)
+        cm = {cparams[i] for i, a in enumerate(expr.args)
+              if isinstance(a, ast.Name) and a.id in memos
+              and defs.at(a.id, stmt) == frozenset(["param"])}
+        return _returns_lin_of(mod, callee, cparams[pos[0]], cm, what, depth)
   if isinstance(expr, ast.Subscript) and isinstance(expr.value, ast.Name) and \
       isinstance(expr.slice, ast.Name) and expr.slice.id == var:
-    # memo table of linearisations: fn stores `memo[<cls>] = ..MROMerge(..)..`
+    # memo table of linearisations: a parameter for which this function (or
+    # the caller that handed it down) stores `memo[<cls>] = ..MROMerge(..)..`
     memo = expr.value.id
-    if defs.at(memo, stmt) == frozenset(["param"]):
-      for n in walk_no_nested(fn):
-        if isinstance(n, ast.Assign) and any(
-            isinstance(t, ast.Subscript) and isinstance(t.value, ast.Name)
-            and t.value.id == memo for t in n.targets) and \
-            _contains_merge(n.value):
-          return True
+    if memo in memos and defs.at(memo, stmt) == frozenset(["param"]):
+      return True
   if isinstance(expr, ast.Name) and expr.id != var:
     ds = defs.at(expr.id, stmt)
     if ds and all(isinstance(d, ast.Assign) and len(d.targets) == 1
                   and isinstance(d.targets[0], ast.Name) for d in ds):
-      return all(_is_lin(mod, fn, defs, d.value, var, d, what) for d in ds)
+      return all(_is_lin(mod, fn, defs, d.value, var, d, what, memos, depth)
+                 for d in ds)
   return False
 
 
@@ -371,15 +489,26 @@ def _rows(ctx, mod, fn, defs, expr, stmt, what, depth=0):
     raise AnalysisError(f"{what}: argument resolution too deep")
   if isinstance(expr, ast.BinOp) and isinstance(expr.op, ast.Add):
     return (_rows(ctx, mod, fn, defs, expr.left, stmt, what, depth + 1)
-            + [(expr.right, stmt)])
+            + _rows(ctx, mod, fn, defs, expr.right, stmt, what, depth + 1))
+  if _is_display_of_rows(expr):
+    # [r0, *rows, rN] == [r0] + rows + [rN]
+    out = []
+    for e in expr.elts:
+      if isinstance(e, ast.Starred):
+        out += _rows(ctx, mod, fn, defs, e.value, stmt, what, depth + 1)
+      else:
+        out.append((ast.copy_location(ast.List(elts=[e], ctx=ast.Load()), e), stmt))
+    return out
   if isinstance(expr, ast.Name):
     ds = defs.at(expr.id, stmt)
     if len(ds) == 1:
       d = next(iter(ds))
       if isinstance(d, ast.Assign) and len(d.targets) == 1 and \
           isinstance(d.targets[0], ast.Name):
-        if isinstance(d.value, ast.BinOp):
+        if isinstance(d.value, ast.BinOp) or _is_display_of_rows(d.value):
           return _rows(ctx, mod, fn, defs, d.value, d, what, depth + 1)
+        if isinstance(d.value, ast.Name) and d.value.id != expr.id:
+          return _rows(ctx, mod, fn, defs, d.value, d, what, depth + 1)   # plain copy
         if _is_empty_list(d.value) and _is_row_map(mod, fn, expr.id):
           source, at = _row_map_source(mod, fn, expr.id, what)
           return _rows(ctx, mod, fn, defs, source, at, what, depth + 1)
@@ -399,6 +528,30 @@ def _rows(ctx, mod, fn, defs, expr, stmt, what, depth=0):
   return [(expr, stmt)]
 
 
+def _is_display_of_rows(expr):
+  """A list display with several elements or starred parts: [a, *b, c]."""
+  return isinstance(expr, ast.List) and (
+      len(expr.elts) > 1 or (len(expr.elts) == 1
+                             and isinstance(expr.elts[0], ast.Starred)))
+
+
+def _per_row_init(s, row, outer_target):
+  """`row = []` (filled by an inner loop) or `row = [f(e) for e in <outer
+  loop variable>]`: the per-iteration row of an order-preserving row map."""
+  if not (isinstance(s, ast.Assign) and len(s.targets) == 1
+          and isinstance(s.targets[0], ast.Name) and s.targets[0].id == row):
+    return None
+  if _is_empty_list(s.value):
+    return "loop"
+  v = s.value
+  if isinstance(v, ast.ListComp) and len(v.generators) == 1 and \
+      not v.generators[0].ifs and not v.generators[0].is_async and \
+      isinstance(v.generators[0].iter, ast.Name) and outer_target is not None \
+      and v.generators[0].iter.id == outer_target:
+    return "comprehension"
+  return None
+
+
 def _is_row_map(mod, fn, name):
   """Does the sole `name.append(R)` append a per-iteration list R?"""
   uses = _attr_uses(fn, name)
@@ -412,10 +565,10 @@ def _is_row_map(mod, fn, name):
   node = mod.enclosing_stmt(call)
   while node is not None and not isinstance(node, (ast.For,) + _FUNCS):
     node = mod.parent.get(node)
+  tgt = node.target.id if isinstance(node, ast.For) and \
+      isinstance(node.target, ast.Name) else None
   return isinstance(node, ast.For) and any(
-      isinstance(s, ast.Assign) and len(s.targets) == 1
-      and isinstance(s.targets[0], ast.Name) and s.targets[0].id == row
-      and _is_empty_list(s.value) for s in node.body)
+      _per_row_init(s, row, tgt) for s in node.body)
 
 
 def _row_map_source(mod, fn, name, what):
@@ -426,8 +579,21 @@ def _row_map_source(mod, fn, name, what):
   row = appended[0].id
   inits = [s for s in outer.body if isinstance(s, ast.Assign)
            and any(isinstance(t, ast.Name) and t.id == row for t in s.targets)]
-  if len(inits) != 1 or not _is_empty_list(inits[0].value):
-    raise AnalysisError(f"{what}: row `{row}` is not initialised once to []")
+  kind = _per_row_init(inits[0], row, outer.target.id) if len(inits) == 1 else None
+  if kind is None:
+    raise AnalysisError(
+        f"{what}: row `{row}` is not initialised once per iteration to [] or "
+        f"to an element-wise map of `{outer.target.id}`")
+  if kind == "comprehension":
+    if _attr_uses(fn, row) or any(
+        isinstance(n, ast.Name) and n.id == row and isinstance(n.ctx, ast.Store)
+        and mod.enclosing_stmt(n) is not inits[0] for n in walk_no_nested(fn)):
+      raise AnalysisError(f"{what}: row `{row}` is changed after it is built")
+    app = mod.enclosing_stmt(_attr_uses(fn, name)[0])
+    if inits[0] not in outer.body or app not in outer.body or \
+        outer.body.index(inits[0]) > outer.body.index(app):
+      raise AnalysisError(f"{what}: row `{row}` built after it is appended")
+    return outer.iter, outer
   _, inner, _ = _sole_append(mod, fn, row, what)
   if inner not in outer.body or not isinstance(inner.iter, ast.Name) or \
       inner.iter.id != outer.target.id:
@@ -465,6 +631,8 @@ def _classify(ctx, mod, fn, defs, expr, stmt, what):
     return ("lins", src(it), it, stmt)
   if isinstance(expr, ast.Name):
     d = _single_assign(defs, expr.id, stmt, what)
+    if isinstance(d.value, ast.ListComp):
+      return _classify(ctx, mod, fn, defs, d.value, d, what)
     if not _is_empty_list(d.value):
       raise AnalysisError(
           f"{what}: operand `{expr.id}` = {src(d.value)} not understood")
@@ -495,6 +663,18 @@ def _merge_files(ctx):
   return files
 
 
+def _site_in_inlined(ctx, mod, fn, call, what):
+  """The merge call `call` of `fn`, re-located in fn with its helpers inlined."""
+  view, fn2 = _inlined(ctx, mod, fn)
+  if fn2 is fn:
+    return mod, fn, call
+  same = [c for c in calls_in(fn2, suffix="MROMerge")
+          if (c.lineno, c.col_offset) == (call.lineno, call.col_offset)]
+  if len(same) != 1:
+    raise AnalysisError(f"{what}: merge call lost while inlining helpers")
+  return view, fn2, same[0]
+
+
 def _site_name(mod, fn, call, seen):
   base = f"{_qualname(mod, fn)}:MROMerge"
   n = seen.get(base, 0)
@@ -516,10 +696,13 @@ def r10_1(ctx):
       if len(call.args) != 1 or call.keywords or \
           isinstance(call.args[0], ast.Starred):
         raise AnalysisError(f"{what}: MROMerge is not called with one argument")
+      mod0 = mod
+      mod, fn, call = _site_in_inlined(ctx, mod0, fn, call, what)
       defs = _defs(ctx, mod, fn)
       stmt = mod.enclosing_stmt(call)
       ops = _rows(ctx, mod, fn, defs, call.args[0], stmt, what)
       parts = [_classify(ctx, mod, fn, defs, e, s, what) for e, s in ops]
+      mod = mod0
       kinds = [p[0] for p in parts]
       facts = {"parts": [f"{k}:{t}" for k, t, _, _ in parts]}
       if kinds not in (["self", "lins", "bases"], ["lins", "bases"]):
@@ -544,6 +727,54 @@ def r10_1(ctx):
                   f"linearised (first parameter `{params[:1]}`)", facts)
           continue
       ctx.ok(what, rel, call.lineno, facts)
+
+
+# -- small-scope fallback for the C3 step ---------------------------------------------
+
+def _merge_by_structure_or_small_scope(ctx, structural, constructs, aspect):
+  """Runs the structural recogniser of a MergeSequences rule; when the shape
+  of the function is outside what it understands (AnalysisError), the same
+  constructs are decided jointly by evaluating MergeSequences from its AST on
+  every input of a small scope against C3 (rules/_c10_smallscope.py).
+  `aspect`: 'result' (the merged list) or 'reject' (the error class)."""
+  before = len(ctx.instances)
+  try:
+    structural()
+    return
+  except AnalysisError as e:
+    del ctx.instances[before:]
+    why = str(e)
+  mod = get_module(ctx, MRO)
+  try:
+    res = SS.decide(ctx, mod)
+  except AnalysisError as e2:
+    raise AnalysisError(f"{why}; and not decidable on a small scope: {e2}") from e2
+  fn = mod.func("MergeSequences")
+  facts = {"shape_not_recognised": why[:160],
+           "decided_by": "small-scope evaluation against C3 (CPython pmerge)",
+           "inputs": res["inputs"], "scope": "<=3 rows of <=3 of 4 classes"}
+  if aspect == "result":
+    bad = res["result"]
+  else:
+    bad = res["reject"]
+    if bad is None and res["result"] is not None and res["result"]["c3"] is None:
+      bad = res["result"]       # an inconsistent hierarchy is accepted
+    if bad is None and not res["complete"]:
+      raise AnalysisError(
+          f"{why}; the small-scope evaluation stopped after "
+          f"{res['mismatches']} wrong merges (see R10.6) before all "
+          "inconsistent inputs were tried")
+  for c in constructs:
+    if bad is None:
+      ctx.ok(c, MRO, fn.lineno, facts)
+    else:
+      ctx.bad(c, MRO, fn.lineno,
+              f"MergeSequences (shape not recognised structurally: {why[:120]}) "
+              f"disagrees with C3 on the rows {bad['rows']}: C3 gives "
+              f"{bad['c3'] if bad['c3'] is not None else 'no consistent order (TypeError in CPython; ValueError expected here)'}, "
+              f"the function gives {bad['got']} (decided jointly for "
+              f"{constructs} on {res['inputs']} small inputs)",
+              dict(facts, counterexample=bad))
 
 
 # -- R10.2 ---------------------------------------------------------------------
@@ -601,7 +832,10 @@ def _construction_calls(mod, fn, class_names):
 
 
 def _check_construction(ctx, mod, rel, qual, class_names):
-  fn = mod.func(qual)
+  # a construction moved into a helper called from inside the try block is
+  # inlined in place, so that the handler around the call is the handler
+  # around the construction
+  mod, fn = _inlined(ctx, mod, mod.func(qual))
   calls = _construction_calls(mod, fn, class_names)
   if not calls:
     raise AnalysisError(
@@ -638,6 +872,12 @@ def _check_construction(ctx, mod, rel, qual, class_names):
 def r10_2(ctx):
   """ValueError -> MROError -> [mro-error] at every VM class construction."""
   mod = get_module(ctx, MRO)
+  _merge_by_structure_or_small_scope(
+      ctx, lambda: _r10_2_reject(ctx, mod), ["MergeSequences:reject"], "reject")
+  _r10_2_rest(ctx, mod)
+
+
+def _r10_2_reject(ctx, mod):
   fn = mod.func("MergeSequences")
   raises = [n for n in walk_no_nested(fn) if isinstance(n, ast.Raise)]
   if not raises:
@@ -664,6 +904,9 @@ def r10_2(ctx):
     ctx.check(name == "ValueError", "MergeSequences:reject", MRO, r.lineno,
               f"MergeSequences signals 'no candidate' with {name}; MROMerge "
               "only converts ValueError", {"raises": name, "guards": g})
+
+
+def _r10_2_rest(ctx, mod):
   fn = mod.func("MROMerge")
   calls = calls_in(fn, suffix="MergeSequences")
   if len(calls) != 1:
@@ -785,27 +1028,93 @@ def r10_3(ctx):
   var = flat[0].targets[0].id
   uses_base = any(isinstance(a, ast.Name) and a.id == base
                   for a in flat[0].value.args)
-  conts = [n for n in flow._walk_loop_body(loop) if isinstance(n, ast.Continue)]
-  cont_ok = True
-  cont_guards = []
-  for c in conts:
-    g = [(src(t), p) for t, p in flow.guards(mod.parent, c, stop=loop)]
-    cont_guards.append(g)
-    if not any(p and t in (f"{var} is None", f"not {var}") or
-               (not p and t in (f"{var} is not None", var)) for t, p in g):
-      cont_ok = False
-  breaks_at_end = bool(loop.body) and isinstance(loop.body[-1], ast.Break)
-  if not breaks_at_end and flow.terminates(loop.body) and not any(
-      isinstance(n, ast.Continue) for n in loop.body[-1:]):
-    # e.g. `return ret` at the end of the body: also a first-match exit
-    breaks_at_end = isinstance(loop.body[-1], ast.Return)
+  # Every way through the rest of the body after the per-base lookup is
+  # enumerated; a path that goes on to the next base (continue, or falling off
+  # the end of the body) must imply that the lookup returned None - then the
+  # first base that yields a variable ends the loop (break / return / raise).
+  stores = [n for n in flow._walk_loop_body(loop) if isinstance(n, ast.Name)
+            and n.id == var and isinstance(n.ctx, ast.Store)
+            and n is not flat[0].targets[0]]
+  if stores:
+    raise AnalysisError(f"{qual}: `{var}` is re-bound inside the loop body")
+  rest = loop.body[loop.body.index(flat[0]) + 1:]
+  finished, open_ = _body_paths(rest, [], qual)
+  paths = finished + [(c, "end-of-body") for c in open_]
+  key = f"{var} is None"
+  onward, exits = [], []
+  for conds, kind in paths:
+    f = _norm_none_tests(("and", conds), var)
+    implied = U.implies_literal(f, key, True)
+    if implied is None:
+      continue
+    text = " and ".join(U.formula_text(c) for c in conds) or "True"
+    if kind in ("continue", "end-of-body"):
+      onward.append({"when": text, "how": kind, "implies_lookup_missed": implied})
+    else:
+      exits.append({"when": text, "how": kind})
+  leaks = [o for o in onward if not o["implies_lookup_missed"]]
   facts = {"per_base_lookup": src(flat[0].value.func), "uses_loop_var": uses_base,
-           "continue_guards": cont_guards, "body_ends_in_exit": breaks_at_end}
-  ctx.check(uses_base and cont_ok and breaks_at_end and not loop.orelse,
+           "next_base_when": onward, "loop_left_when": exits}
+  ctx.check(uses_base and not leaks and not loop.orelse,
             f"{qual}:first-match-exit", ATTR, loop.lineno,
             "after the first base whose flat lookup yields a variable the "
-            "loop must end (body ends in break; `continue` only when the "
-            f"lookup returned None): {facts}", facts)
+            "loop must end: the lookup moves on to the next base "
+            f"{[(o['how'], o['when']) for o in leaks]} although `{var}` may be "
+            "a variable there (only `continue` / falling off the body under "
+            f"`{var} is None` is allowed): {facts}", facts)
+
+
+def _norm_none_tests(f, var):
+  """Truthiness tests of the lookup result count as `is not None` (a
+  cfg.Variable is always truthy)."""
+  k = f[0]
+  if k == "atom":
+    return ("not", ("atom", f"{var} is None")) if f[1] == var else f
+  if k == "not":
+    return ("not", _norm_none_tests(f[1], var))
+  if k in ("and", "or"):
+    return (k, [_norm_none_tests(g, var) for g in f[1]])
+  return f
+
+
+def _body_paths(block, conds, what):
+  """Paths through a loop body: -> (finished [(conds, how)], open [conds]);
+  how in break / return / raise / continue.  Inner loops and try blocks that
+  cannot leave the outer iteration are opaque steps."""
+  finished, open_ = [], [conds]
+  for st in block:
+    if not open_:
+      break
+    if isinstance(st, ast.If):
+      f = U.bool_formula(st.test)
+      nxt = []
+      for c in open_:
+        fb, ob = _body_paths(st.body, c + [f], what)
+        fe, oe = _body_paths(st.orelse, c + [("not", f)], what)
+        finished += fb + fe
+        nxt += ob + oe
+      open_ = nxt
+    elif isinstance(st, (ast.Break, ast.Continue, ast.Return, ast.Raise)):
+      how = type(st).__name__.lower()
+      finished += [(c, how) for c in open_]
+      open_ = []
+    elif isinstance(st, (ast.With, ast.AsyncWith)):
+      nxt = []
+      for c in open_:
+        fb, ob = _body_paths(st.body, c, what)
+        finished += fb
+        nxt += ob
+      open_ = nxt
+    elif isinstance(st, (ast.For, ast.AsyncFor, ast.While)):
+      if any(isinstance(n, ast.Return) for n in walk_no_nested(st)):
+        raise AnalysisError(f"{what}: return inside an inner loop not understood")
+    elif isinstance(st, (ast.Try, ast.Match)):
+      leaves = [n for n in flow._walk_loop_body(ast.For(body=[st], orelse=[]))
+                if isinstance(n, (ast.Break, ast.Continue))]
+      if leaves or any(isinstance(n, ast.Return) for n in walk_no_nested(st)):
+        raise AnalysisError(
+            f"{what}: break/continue/return inside a try/match block not understood")
+  return finished, open_
 
 
 # -- R10.5 ---------------------------------------------------------------------
@@ -893,7 +1202,8 @@ def r10_5(ctx):
   """A repeated direct base is rejected with MROError before the merge."""
   mod = get_module(ctx, MIXIN)
   qual = "Class.compute_mro"
-  fn = mod.func(qual)
+  # the helpers compute_mro was split into are inlined in place
+  mod, fn = _inlined(ctx, mod, mod.func(qual))
   defs = _defs(ctx, mod, fn)
   merges = [c for c in calls_in(fn, suffix="MROMerge")]
   if len(merges) != 1:
@@ -927,7 +1237,8 @@ def r10_5(ctx):
       raise AnalysisError(
           f"{qual}: raises MROError / compares lengths in a way the "
           "duplicate-test idioms (len(set(x)) != len(x)) do not cover")
-    vm = get_module(ctx, VMU).func("make_class")
+    vm = _inlined(ctx, get_module(ctx, VMU),
+                  get_module(ctx, VMU).func("make_class"))[1]
     if any(_dup_compare(n) for n in ast.walk(vm) if isinstance(n, ast.Compare)) \
         or any(isinstance(n, ast.Raise) and _exc_name(n.exc) == "MROError"
                for n in ast.walk(vm)):
@@ -1001,6 +1312,13 @@ def _candidate_assign(fn):
 def r10_6(ctx):
   """C3 step: candidate = head of a row, rejected iff in another row's tail."""
   mod = get_module(ctx, MRO)
+  _merge_by_structure_or_small_scope(
+      ctx, lambda: _r10_6_structural(ctx, mod),
+      ["MergeSequences:candidate-is-head", "MergeSequences:tail-test",
+       "MergeSequences:remove-heads"], "result")
+
+
+def _r10_6_structural(ctx, mod):
   fn = mod.func("MergeSequences")
   ca = _candidate_assign(fn)
   cand = ca.targets[0].id
@@ -1279,6 +1597,13 @@ def r10_9(ctx):
   """C3 takes the FIRST row whose head is acceptable: every round scans the
   rows from the first one, in order, and stops at the first acceptable head."""
   mod = get_module(ctx, MRO)
+  _merge_by_structure_or_small_scope(
+      ctx, lambda: _r10_9_structural(ctx, mod),
+      ["MergeSequences:scan-from-first-row",
+       "MergeSequences:scan-ends-at-first-acceptable-head"], "result")
+
+
+def _r10_9_structural(ctx, mod):
   fn = mod.func("MergeSequences")
   if not fn.args.args:
     raise AnalysisError("MergeSequences has no parameter")
@@ -1782,7 +2107,7 @@ def r10_10(ctx):
                 {"attr:self.pytd_cls.bases"}))
   # (3) both engines' classes: compute_mro's tested/merged row
   mm = get_module(ctx, MIXIN)
-  fn3 = mm.func("Class.compute_mro")
+  mm, fn3 = _inlined(ctx, mm, mm.func("Class.compute_mro"))
   merges = calls_in(fn3, suffix="MROMerge")
   if len(merges) != 1:
     raise AnalysisError("Class.compute_mro: expected one MROMerge call")
@@ -1797,7 +2122,7 @@ def r10_10(ctx):
   sites.append((what3, mm, fn3, brow[0][2], brow[0][3], {"call:self.bases()"}))
   # (4) source classes: make_class hands props.bases to the class constructor
   vm = get_module(ctx, VMU)
-  fn4 = vm.func("make_class")
+  vm, fn4 = _inlined(ctx, vm, vm.func("make_class"))
   ctor = _construction_calls(vm, fn4, {"InterpreterClass"})
   if len(ctor) != 1:
     raise AnalysisError("make_class: InterpreterClass construction not found")
@@ -1837,9 +2162,148 @@ def r10_10(ctx):
               f"to derive from {sorted(must)} (the bases as written)", facts)
 
 
+# The C3 step with the candidate search extracted into helpers (the shape of
+# benign/C10-r1): `%(ERR)s`, `%(SCAN)s` and `%(TAIL)s` are the places the
+# must-fire variants break.
+_SPLIT_OLD = '  res = []\n  while True:\n    if not any(seqs):  # any empty subsequence left?\n      return res\n    for seq in seqs:  # find merge candidates among seq heads\n      if not seq:\n        continue\n      cand = seq[0]\n      if getattr(cand, "SINGLETON", False):\n        # Special class. Cycles are allowed. Emit and remove duplicates.\n        seqs = [[s for s in seq if s != cand] for seq in seqs]  # pylint: disable=g-complex-comprehension\n        break\n      if any(s for s in seqs if cand in s[1:] and s is not seq):\n        cand = None  # reject candidate\n      else:\n        # Remove and emit. The candidate can be head of more than one list.\n        for other_seq in seqs:\n          if other_seq and other_seq[0] == cand:\n            del other_seq[0]\n        break\n    if cand is None:\n      raise ValueError\n    res.append(cand)\n'
+_SPLIT_NEW = (
+    "  merged = []\n"
+    "  while any(seqs):\n"
+    "    winner = _PickSequence(seqs)\n"
+    "    if winner is None:\n"
+    "      raise %(ERR)s\n"
+    "    head = winner[0]\n"
+    "    if getattr(head, \"SINGLETON\", False):\n"
+    "      seqs = [[s for s in seq if s != head] for seq in seqs]\n"
+    "    else:\n"
+    "      for seq in seqs:\n"
+    "        if seq and seq[0] == head:\n"
+    "          del seq[%(DEL)s]\n"
+    "    merged.append(head)\n"
+    "  return merged\n"
+    "\n\n"
+    "def _PickSequence(seqs):\n"
+    "  for seq in %(SCAN)s:\n"
+    "    if not seq:\n"
+    "      continue\n"
+    "    head = seq[%(HEAD)s]\n"
+    "    if getattr(head, \"SINGLETON\", False) or not _InOtherTail(head, seq, seqs):\n"
+    "      return seq\n"
+    "  return None\n"
+    "\n\n"
+    "def _InOtherTail(cand, own_seq, seqs):\n"
+    "  return any(s for s in seqs if cand in s[%(TAIL)s:] and s is not own_seq)\n")
+
+
+def _split_merge(**kw):
+  d = {"ERR": "ValueError", "SCAN": "seqs", "TAIL": "1", "HEAD": "0", "DEL": "0"}
+  d.update(kw)
+  return [(MRO, _SPLIT_OLD, _SPLIT_NEW % d)]
+
+
+_HELPER_ANCHOR = "class Class(metaclass=mixin.MixinMeta):  # pylint: disable=undefined-variable\n"
+_DUP_OLD = ("    base_classes = [base for base in bases if isinstance(base, Class)]\n"
+            "    if len({id(base) for base in base_classes}) != len(base_classes):\n"
+            "      raise mro.MROError([base_classes])\n")
+
+
+def _dup_helper(op):
+  return [(MIXIN, _DUP_OLD, "    _check_no_repeated_base(bases)\n"),
+          (MIXIN, _HELPER_ANCHOR,
+           "def _check_no_repeated_base(direct_bases) -> None:\n"
+           "  classes = [b for b in direct_bases if isinstance(b, Class)]\n"
+           f"  if len({{id(b) for b in classes}}) {op} len(classes):\n"
+           "    raise mro.MROError([classes])\n\n\n" + _HELPER_ANCHOR)]
+
+
+def _rows_helper(body):
+  return [(MIXIN, "    bases = [[self]] + [list(base.mro) for base in bases] + [list(bases)]\n",
+           "    bases = _mro_rows(self, bases)\n"),
+          (MIXIN, _HELPER_ANCHOR,
+           "def _mro_rows(cls_, direct):\n"
+           f"  return {body}\n\n\n" + _HELPER_ANCHOR)]
+
+
+_TRY_OLD = ("    try:\n      class_type = props.class_type or abstract.InterpreterClass\n"
+            "      assert issubclass(class_type, abstract.InterpreterClass)\n")
+_VM_ANCHOR = "def make_class(node, props, ctx):\n"
+_BUILD_HELPER = ("def _probe_class(class_type, name, bases, class_dict, cls, ctx, props):\n"
+                 "  return class_type(name, bases, class_dict.pyval, cls,\n"
+                 "                    ctx.vm.current_opcode, props.undecorated_methods, ctx)\n\n\n")
+
+
 # -- sensitivity suite -----------------------------------------------------------
 
 VARIANTS = [
+    # robustness: the refactored shapes stay silent, the defects still fire there
+    {"name": "twin-benign-C10-r1-merge-split-into-helpers", "rule": "R10.6",
+     "patch": "benign/C10-r1/patch.diff", "expect": "silent"},
+    {"name": "twin-benign-C10-r2-guard-clauses-and-comprehensions", "rule": "R10.1",
+     "patch": "benign/C10-r2/patch.diff", "expect": "silent"},
+    {"name": "twin-benign-C10-r3-compute_mro-helpers", "rule": "R10.5",
+     "patch": "benign/C10-r3/patch.diff", "expect": "silent"},
+    {"name": "twin-benign-C10-r4-lookup-and-make_class-split", "rule": "R10.3",
+     "patch": "benign/C10-r4/patch.diff", "expect": "silent"},
+    {"name": "twin-split-merge", "rule": "R10.6", "edits": _split_merge(), "expect": "silent"},
+    {"name": "split-merge-tail-off-by-one", "rule": "R10.6",
+     "edits": _split_merge(TAIL="2"), "expect": "fire"},
+    {"name": "split-merge-tail-includes-head", "rule": "R10.6",
+     "edits": _split_merge(TAIL="0"), "expect": "fire"},
+    {"name": "split-merge-candidate-is-last", "rule": "R10.6",
+     "edits": _split_merge(HEAD="-1"), "expect": "fire"},
+    {"name": "split-merge-removes-last", "rule": "R10.6",
+     "edits": _split_merge(DEL="-1"), "expect": "fire"},
+    {"name": "split-merge-scan-backwards", "rule": "R10.9",
+     "edits": _split_merge(SCAN="reversed(seqs)"), "expect": "fire"},
+    {"name": "split-merge-scan-skips-class-row", "rule": "R10.9",
+     "edits": _split_merge(SCAN="seqs[1:] + seqs[:1]"), "expect": "fire"},
+    {"name": "split-merge-raises-TypeError", "rule": "R10.2",
+     "edits": _split_merge(ERR="TypeError"), "expect": "fire"},
+    {"name": "split-merge-unknown-picker", "rule": "R10.6", "expect": "error",
+     "edits": _split_merge(SCAN="_rows_by_priority(seqs)")},
+    {"name": "twin-ComputeMRO-starred-rows", "rule": "R10.1", "file": MRO, "expect": "silent",
+     "old": "[[t]] + base_mros + [_Degenerify(_GetClass(t, lookup_ast).bases)]",
+     "new": "[[t], *base_mros, _Degenerify(_GetClass(t, lookup_ast).bases)]"},
+    {"name": "ComputeMRO-starred-rows-class-row-not-first", "rule": "R10.1", "file": MRO, "expect": "fire",
+     "old": "[[t]] + base_mros + [_Degenerify(_GetClass(t, lookup_ast).bases)]",
+     "new": "[*base_mros, [t], _Degenerify(_GetClass(t, lookup_ast).bases)]"},
+    {"name": "GetBasesInMRO-comprehension-reversed", "rule": "R10.1", "file": MRO, "expect": "fire",
+     "old": "  base_mros = []\n  for p in cls.bases:\n    base_mros.append(_ComputeMRO(p, mros, lookup_ast))\n  return tuple(MROMerge(base_mros + [_Degenerify(cls.bases)]))",
+     "new": "  base_mros = [_ComputeMRO(p, mros, lookup_ast) for p in reversed(cls.bases)]\n  return tuple(MROMerge([*base_mros, _Degenerify(cls.bases)]))"},
+    {"name": "twin-GetBasesInMRO-comprehension", "rule": "R10.1", "file": MRO, "expect": "silent",
+     "old": "  base_mros = []\n  for p in cls.bases:\n    base_mros.append(_ComputeMRO(p, mros, lookup_ast))\n  return tuple(MROMerge(base_mros + [_Degenerify(cls.bases)]))",
+     "new": "  base_mros = [_ComputeMRO(p, mros, lookup_ast) for p in cls.bases]\n  return tuple(MROMerge([*base_mros, _Degenerify(cls.bases)]))"},
+    {"name": "per-base-helper-returns-other-linearisation", "rule": "R10.1", "expect": "error",
+     "edits": [(MRO, "          base_mro = _ComputeMRO(base, mros, lookup_ast)\n",
+                "          base_mro = _Lin(t, base, mros, lookup_ast)\n"),
+               (MRO, "def GetBasesInMRO(cls, lookup_ast=None):\n",
+                "def _Lin(t, base, mros, lookup_ast):\n  if base in mros:\n    return mros[t]\n  return _ComputeMRO(base, mros, lookup_ast)\n\n\ndef GetBasesInMRO(cls, lookup_ast=None):\n")]},
+    {"name": "twin-per-base-helper", "rule": "R10.1", "expect": "silent",
+     "edits": [(MRO, "          base_mro = _ComputeMRO(base, mros, lookup_ast)\n",
+                "          base_mro = _Lin(t, base, mros, lookup_ast)\n"),
+               (MRO, "def GetBasesInMRO(cls, lookup_ast=None):\n",
+                "def _Lin(t, base, mros, lookup_ast):\n  if base in mros:\n    return mros[base]\n  return _ComputeMRO(base, mros, lookup_ast)\n\n\ndef GetBasesInMRO(cls, lookup_ast=None):\n")]},
+    {"name": "twin-duplicate-test-in-helper", "rule": "R10.5", "edits": _dup_helper("!="), "expect": "silent"},
+    {"name": "duplicate-test-in-helper-inverted", "rule": "R10.5", "edits": _dup_helper("=="), "expect": "fire"},
+    {"name": "twin-rows-built-in-helper", "rule": "R10.1", "expect": "silent",
+     "edits": _rows_helper("[[cls_]] + [list(b.mro) for b in direct] + [list(direct)]")},
+    {"name": "rows-built-in-helper-bases-row-first", "rule": "R10.1", "expect": "fire",
+     "edits": _rows_helper("[[cls_]] + [list(direct)] + [list(b.mro) for b in direct]")},
+    {"name": "lookup-breaks-only-for-instances", "rule": "R10.3", "file": ATTR, "expect": "fire",
+     "old": "      break  # we found a class which has this attribute\n",
+     "new": "      if valself:\n        break  # we found a class which has this attribute\n"},
+    {"name": "twin-lookup-positive-guard", "rule": "R10.3", "file": ATTR, "expect": "silent",
+     "old": "      if var is None:\n        continue\n      for varval in var.bindings:",
+     "new": "      if var is not None:\n        pass\n      else:\n        continue\n      for varval in var.bindings:"},
+    {"name": "make_class-construction-helper-outside-try", "rule": "R10.2", "expect": "fire",
+     "edits": [(VMU, _TRY_OLD,
+                "    class_type = props.class_type or abstract.InterpreterClass\n"
+                "    probe = _probe_class(class_type, name, bases, class_dict, cls, ctx, props)\n" + _TRY_OLD),
+               (VMU, _VM_ANCHOR, _BUILD_HELPER + _VM_ANCHOR)]},
+    {"name": "twin-make_class-construction-helper-inside-try", "rule": "R10.2", "expect": "silent",
+     "edits": [(VMU, "      val = class_type(\n          name,\n          bases,\n          class_dict.pyval,\n          cls,\n          ctx.vm.current_opcode,\n          props.undecorated_methods,\n          ctx,\n      )\n",
+                "      val = _probe_class(class_type, name, bases, class_dict, cls, ctx, props)\n"),
+               (VMU, _VM_ANCHOR, _BUILD_HELPER + _VM_ANCHOR)]},
     # R10.1
     {"name": "compute_mro-bases-row-first", "rule": "R10.1", "file": MIXIN, "expect": "fire",
      "old": "bases = [[self]] + [list(base.mro) for base in bases] + [list(bases)]",
